@@ -132,3 +132,27 @@ Lemma lax_old_probe_refuted :
   detect lax_old false true [KCommon; KNewOnly] <> Some SNew
   /\ detect strict_old false true [KCommon; KNewOnly] = Some SNew.
 Proof. split; [vm_compute; discriminate|reflexivity]. Qed.
+
+(** * Every field the resolution does not name is copied: a new-style run hands on the rest of the configuration
+      (compatibility flags, import mapping, ...) exactly as the file gave it, whichever outputs are selected. *)
+Theorem resolve_keeps_the_rest {rest : Type} (c c' : @config rest) : resolve_new c = Some c' -> c_rest c' = c_rest c.
+Proof.
+  unfold resolve_new, update_defaults, update_from_default_flags. cbn [c_gen c_package c_out c_initialism c_rest].
+  destruct (gen_eqb (c_gen c) gen_zero); cbn [c_gen c_package c_out c_initialism c_rest];
+    match goal with |- (if ?v then _ else _) = _ -> _ => destruct v end; intro H; inversion H; reflexivity.
+Qed.
+
+(** a resolution that clears a flag of the rest for some selections (the chi first-to-last flag unless the chi server is
+    generated) is not the tool's: std-http reads that flag *)
+Definition resolve_clearing_chi_flag (c : @config (bool * bool)) : option (@config (bool * bool)) :=
+  match resolve_new c with
+  | Some c' => Some {| c_package := c_package c'; c_gen := c_gen c'; c_out := c_out c'; c_initialism := c_initialism c';
+                       c_rest := (if g_chi (c_gen c') then fst (c_rest c') else false, snd (c_rest c')) |}
+  | None => None
+  end.
+Theorem clearing_the_chi_flag_refuted :
+  let g := {| g_iris := false; g_chi := false; g_fiber := false; g_echo := false; g_gin := false; g_gorilla := false;
+              g_stdhttp := true; g_strict := false; g_client := false; g_models := true; g_spec := false |} in
+  let c := {| c_package := "api"%string; c_gen := g; c_out := {| skip_fmt := false; skip_prune := false |}; c_initialism := false; c_rest := (true, false) |} in
+  option_map c_rest (resolve_new c) = Some (true, false) /\ option_map c_rest (resolve_clearing_chi_flag c) = Some (false, false).
+Proof. vm_compute. split; reflexivity. Qed.
